@@ -184,6 +184,10 @@ PROPS = {
 # quantifier names "very large values / totals"; C11 gets the oldest-first clause on such amounts
 for _p in ("C01", "C02", "C04", "C05", "C11"):
     PROPS[_p] = dict(family="eco", parts=[PROPS[_p], dict(family="big")])
+# unbounded amounts at design level: Apalache proves C01 /\ C02 /\ C05 /\ C06 inductive on spec/IndLedger.tla
+for _p in ("C01", "C02", "C05"):
+    PROPS[_p]["parts"].append(dict(family="ind"))
+PROPS["C06"] = dict(family="eco", parts=[PROPS["C06"], dict(family="ind")])
 
 HOOK_COMMITS = ["65ff9943f"]
 
